@@ -815,3 +815,21 @@ def parent_kwargs_init_only(ctx, rep: Report, rule: str):
     for s, b in bad[:2]:
         rep.violate(Violation(rule, f"{rule}|{ast.unparse(s)[:40]}", f"InitMethod.init: {b}: an init=False attribute of a parent spec class is passed to the parent's constructor, which rejects it (the subclass cannot be instantiated)",
                               f"{fi.module.relpath}:{s.lineno}", "InitMethod.init"))
+
+
+def declared_do_not_copy(ctx, rep: Report, rule: str):
+    """build_attr_spec hands a do_not_copy keyword to Attr.from_attr_value, which overrides whatever the declared
+    Attr(...) says: the value handed over must take the declaration into account (Attr(do_not_copy=True) is documented)."""
+    rep.rules[rule] = "the do_not_copy flag declared on an Attr(...) is not overwritten by the decorator-level setting"
+    fi = ctx.p.find_function("spec_class.build_attr_spec")
+    from .base import with_callees
+    srcs = " ".join(ast.unparse(g.node) for g in with_callees(ctx.p, fi, 1) if g is fi or g.cls is fi.cls)
+    fav = ctx.p.find_function("Attr.from_attr_value")
+    overrides = any(isinstance(n, ast.Call) and isinstance(n.func, ast.Name) and n.func.id == "setattr" for n in ast.walk(fav.node))
+    passes_kw = "do_not_copy=" in srcs
+    honours = "attr_value.do_not_copy" in srcs or ".do_not_copy or" in srcs
+    ok = (not overrides) or (not passes_kw) or honours
+    rep.oblige(rule, "spec_class.build_attr_spec", ok)
+    if not ok:
+        rep.violate(Violation(rule, f"{rule}|declared-flag", "spec_class.build_attr_spec passes the decorator-level do_not_copy to Attr.from_attr_value as an override without consulting the declared Attr: `x: list = Attr(do_not_copy=True)` is deep-copied by every helper unless the decorator repeats the setting",
+                              f"{fi.module.relpath}:{fi.node.lineno}", "spec_class.build_attr_spec"))
